@@ -204,6 +204,12 @@ func scaleSets(tier string) []Set {
 		add(fmt.Sprintf("scale includes n=%d", n), scale.Includes(n, false)...)
 		add(fmt.Sprintf("scale includes-nested n=%d", n), scale.Includes(n, true)...)
 		add(fmt.Sprintf("scale groupings n=%d", n), scale.ManyGroupings(n)...)
+		add(fmt.Sprintf("scale many-uses n=%d", n), scale.ManyUses(n)...)
+		add(fmt.Sprintf("scale many-augments n=%d", n), scale.ManyAugments(n)...)
+		add(fmt.Sprintf("scale many-deviations n=%d", n), scale.ManyDeviations(n)...)
+		add(fmt.Sprintf("scale many-module-identities n=%d", n), scale.ManyModuleIdentities(n)...)
+		add(fmt.Sprintf("scale counts n=%d", n), scale.Counts(n))
+		add(fmt.Sprintf("scale many-leaves n=%d", n), scale.ManyLeaves(n))
 	}
 	return out
 }
